@@ -123,9 +123,11 @@ pub fn gen_graph(t: &mut Tape) -> Prog {
                 missing_counter += 1;
                 let n = Ty::Named(format!("Missing{missing_counter}"));
                 (
-                    match t.below(3) {
+                    match t.below(5) {
                         0 => n,
                         1 => n.cptr(),
+                        2 => n.cptr().mptr(),
+                        3 => n.mptr().arr(2),
                         _ => n.arr(2),
                     },
                     false,
@@ -149,7 +151,7 @@ pub fn gen_graph(t: &mut Tape) -> Prog {
                         } else {
                             let by_name = t.chance(1, 2);
                             import(&mut prog, m, tmod[j], &tname(j), by_name);
-                            (Ty::Named(tname(j)).arr(1 + t.below(3)), false)
+                            (Ty::Named(tname(j)).arr(t.below(4)), false) // also zero-length: still a by-value dependency
                         }
                     }
                     4 => {
@@ -191,6 +193,41 @@ pub fn gen_graph(t: &mut Tape) -> Prog {
             let mut f = Field::new(&format!("f{fi}"), ty);
             f.base = base;
             td.fields.push(f);
+        }
+        // virtual functions with signatures over names (also undefined ones, also behind two pointers)
+        if td.vft.is_some() && t.chance(1, 2) {
+            let na = 1 + t.below(2);
+            let mut tys = vec![];
+            for _ in 0..=na {
+                let ty = if p_missing > 0 && t.below(30) < p_missing {
+                    missing_counter += 1;
+                    let n = Ty::Named(format!("Missing{missing_counter}"));
+                    match t.below(3) {
+                        0 => n,
+                        1 => n.cptr(),
+                        _ => n.cptr().mptr(),
+                    }
+                } else {
+                    let j = t.below(nt as u64) as usize;
+                    let by_name = t.chance(1, 2);
+                    import(&mut prog, m, tmod[j], &tname(j), by_name);
+                    let n = Ty::Named(tname(j));
+                    match t.below(3) {
+                        0 => n.cptr(),
+                        1 => n.mptr(),
+                        _ => n.cptr().cptr(),
+                    }
+                };
+                tys.push(ty);
+            }
+            let f = &mut td.vft.as_mut().unwrap().funcs[0];
+            let ret = tys.pop();
+            for (a, ty) in tys.into_iter().enumerate() {
+                f.args.push(Arg::Named(format!("a{a}"), ty));
+            }
+            if t.chance(1, 2) {
+                f.ret = ret;
+            }
         }
         tdefs.push(td);
         // impl functions with signatures over names
@@ -276,7 +313,12 @@ pub fn gen_graph(t: &mut Tape) -> Prog {
         let m = t.below(nm as u64) as usize;
         let ty = if p_missing > 0 && t.below(20) < p_missing {
             missing_counter += 1;
-            Ty::Named(format!("Missing{missing_counter}")).cptr()
+            let n = Ty::Named(format!("Missing{missing_counter}"));
+            match t.below(3) {
+                0 => n.cptr(),
+                1 => n.cptr().mptr(),
+                _ => n.mptr().arr(2),
+            }
         } else {
             let j = t.below(nt as u64) as usize;
             let by_name = t.chance(1, 2);
@@ -364,8 +406,9 @@ pub fn expect(prog: &Prog, w: u64) -> Expect {
                 }
             }
         }
-        for im in &m.impls {
-            for f in &im.funcs {
+        let vfuncs: Vec<&Func> = m.types().filter_map(|t| t.vft.as_ref()).flat_map(|v| v.funcs.iter()).collect();
+        for f in m.impls.iter().flat_map(|im| im.funcs.iter()).chain(vfuncs.into_iter()) {
+            {
                 for a in &f.args {
                     if let Arg::Named(_, t) = a {
                         if model.names_bind(mi, t).is_err() {
